@@ -1,8 +1,8 @@
 #!/bin/bash
 # Re-runs every sensitivity patch (own mutants + independent seeded changes) against the current checks and writes
 # /verif/sensitivity.json.  usage: sensitivity_all.sh [quick|<runs>]
-cd /verif
-OUT=/verif/sensitivity.json
+cd "$(dirname "$0")/.."; BASE=$PWD
+OUT=$BASE/sensitivity.json
 echo "[" > $OUT.tmp
 first=1
 run_one() {  # name patch prop
@@ -30,4 +30,4 @@ for p in mutants/*.diff; do
   run_one "mutants/$n" "$p" "$prop"
 done
 echo "]" >> $OUT.tmp; mv $OUT.tmp $OUT
-rm -f /verif/replays/*.json /verif/replays/known/*.json
+rm -f $BASE/replays/*.json $BASE/replays/known/*.json
